@@ -163,6 +163,8 @@ def run_stateful(sub, tier, n, seed, rec, shrink):
             break
         except _CheckFailure:
             f = rec.last_failure
+            if getattr(sub, "oracle", None) is not None and type(sub).simplify is not core.SubCheck.simplify:
+                f = minimise(sub, f, rec, budget=20)
             rec.failures.append(f)
             rec.exclusion.add(f["outcome"].get("bucket", "?"))
         used = max(1, getattr(sub, "histories_run", lambda: rec.evaluations - before)())
